@@ -23,6 +23,7 @@ class Records:
         self.maints = [i['id'] for i in items if i['kind'] == 'maintainer']
         self.resources = sorted(ctx.spec.get('resources', {}))
         self.n_recv = self.n_fin = self.n_hooks = self.n_script = 0
+        self.n_gen_views = 0
         self.n_sched = 0
         self.scheds = {i['id']: i for i in items if i['kind'] == 'scheduler'}
         self.sched_rounds = {sid: [] for sid in self.scheds}
@@ -229,6 +230,23 @@ class Records:
         ctx, m = self.ctx, self.m
         log = m.log
         cen = ctx.census
+        gv = getattr(log, 'gen_views', None)
+        while isinstance(gv, list) and self.n_gen_views < len(gv):
+            sid, k, produced, val, cost, nrec, last_rec_id, prev_id = gv[self.n_gen_views]
+            self.n_gen_views += 1
+            # while the generator hook makes part k, the k-1 parts before it have been supplied, counted and recorded
+            # (the number of records is not compared: a user may have cleared the series)
+            if produced != k - 1:
+                ctx.report('counter', f'source {sid}: while its generator made part {k} the source showed '
+                           f'produced_parts {produced!r} ({k - 1} parts had been handed over)')
+                return
+            # ... and the newest supplied_new_part record (if the user has not emptied the series) is that of part k-1
+            if k > 1 and nrec and prev_id is not None and last_rec_id != prev_id:
+                ctx.report('record_count', f'source {sid}: while its generator made part {k} the newest supplied_new_part '
+                           f'record named part id {last_rec_id!r}; part {k - 1} (id {prev_id!r}), which had been handed '
+                           f'over, was not recorded yet')
+                return
+            ctx.count('source_counters_read_inside_the_generator_hook')
         while self.n_recv < len(log.receives):
             t, did, part, ct, ser, lvs, val = log.receives[self.n_recv]
             self.n_recv += 1
